@@ -562,6 +562,37 @@ def _events_of(expr_or_stmt: ast.AST, env, stmt) -> List[Event]:
     return out
 
 
+def _atom_key(e: ast.AST):
+    """(text, polarity) with `not`, `is not None` and `!=` folded into the polarity"""
+    pol = True
+    while isinstance(e, ast.UnaryOp) and isinstance(e.op, ast.Not):
+        e = e.operand
+        pol = not pol
+    if isinstance(e, ast.Compare) and len(e.ops) == 1 and isinstance(e.ops[0], (ast.IsNot, ast.NotEq, ast.NotIn)):
+        op = {ast.IsNot: ast.Is, ast.NotEq: ast.Eq, ast.NotIn: ast.In}[type(e.ops[0])]()
+        e = ast.Compare(left=e.left, ops=[op], comparators=e.comparators)
+        pol = not pol
+    return dump(e), pol
+
+
+def _decided(conds, test: ast.AST) -> Optional[bool]:
+    """Truth of `test` when an earlier condition of the same path already decided the very same (side-effect free) expression: only
+    the consistent branch is a path. Arises when a helper's result is tested again by its caller (spliced helpers)."""
+    if any(isinstance(x, ast.Call) and (getattr(x.func, "attr", None) or getattr(x.func, "id", "")) in ("next", "pop", "popitem", "random", "file_report") for x in ast.walk(test)):
+        return None
+    k, pol = _atom_key(test)
+    if len(k) < 6:
+        return None
+    for c in reversed(conds):
+        if isinstance(c.pol, bool) and c.test is not None:
+            k2, pol2 = _atom_key(c.test)
+            if k2 == k:
+                return c.pol if pol2 == pol else (not c.pol)
+        elif c.pol in ("iter",):
+            break  # a loop iteration in between: names may have been rebound
+    return None
+
+
 def _const_truth(e: ast.AST) -> Optional[bool]:
     """Truth value of a test that became a literal after substitution (`x = False ... if not x:`): only the feasible
     branch is a path. None when it is not a literal."""
@@ -604,6 +635,8 @@ class PathEnumerator:
         self.init_env = dict(init_env or {})
         self.max_paths = max_paths
         self.out: List[Path] = []
+        self.depth = 0
+        self._ctx = None
 
     def run(self) -> List[Path]:
         if isinstance(self.fn, ast.Lambda):
@@ -650,6 +683,136 @@ class PathEnumerator:
         elif isinstance(target, ast.Starred):
             self._bind(st, target.value, value, stmt)
 
+    # -- splicing of new functions
+    def _context(self):
+        if getattr(self, "_ctx", None) is None:
+            mod = cls = None
+            outers = []
+            n = self.fn
+            while n is not None:
+                if isinstance(n, (ast.FunctionDef, ast.AsyncFunctionDef)):
+                    outers.append(n)
+                elif isinstance(n, ast.ClassDef) and cls is None:
+                    cls = n
+                elif isinstance(n, ast.Module):
+                    mod = n
+                n = getattr(n, "_parent", None)
+            self._ctx = (mod, cls, outers, getattr(mod, "_splice", None) if mod is not None else None)
+        return self._ctx
+
+    def _splice_target(self, s: ast.stmt):
+        if not SPLICE or self.depth >= 3:
+            return None
+        if isinstance(s, (ast.Assign, ast.AnnAssign, ast.Return, ast.Expr)) and isinstance(getattr(s, "value", None), ast.Call):
+            call = s.value
+        else:
+            return None
+        mod, cls, outers, reg = self._context()
+        if not reg:
+            return None
+        f = call.func
+        name = f.id if isinstance(f, ast.Name) else (f.attr if isinstance(f, ast.Attribute) else None)
+        cands = reg.get(name)
+        if not cands:
+            return None
+        if any(isinstance(a, ast.Starred) for a in call.args) or any(k.arg is None for k in call.keywords):
+            return None
+        pick = None
+        recv = None
+        if isinstance(f, ast.Name):
+            nested = [c for c in cands if c["outer"] is not None and any(c["outer"] is o for o in outers)]
+            local = [c for c in cands if c["outer"] is None and c["cls"] is None and c["module"] is mod]
+            anywhere = [c for c in cands if c["outer"] is None and c["cls"] is None]
+            pick = nested[0] if len(nested) == 1 else (local[0] if len(local) == 1 and not nested else (anywhere[0] if len(anywhere) == 1 and not nested and not local else None))
+        elif isinstance(f, ast.Attribute):
+            v = f.value
+            if isinstance(v, ast.Name) and v.id in ("self", "cls") and cls is not None:
+                ms = [c for c in cands if c["cls"] == cls.name and c["module"] is mod]
+                pick = ms[0] if len(ms) == 1 else None
+                recv = v
+            elif isinstance(v, ast.Name) and v.id[:1].isupper():
+                ms = [c for c in cands if c["cls"] == v.id]
+                pick = ms[0] if len(ms) == 1 else None
+                recv = v
+            elif isinstance(v, ast.Name):
+                ms = [c for c in cands if c["cls"] is None and c["outer"] is None]
+                # module alias (`ops.helper(...)`): only when nothing in scope binds that name as a value
+                pick = ms[0] if len(ms) == 1 and v.id in reg.get("$modules", ()) else None
+        if pick is None or pick["node"] is self.fn or any(pick["node"] is o for o in outers):
+            return None
+        d = pick["node"]
+        a = d.args
+        if a.vararg or a.kwarg or a.posonlyargs:
+            return None
+        params = [x.arg for x in a.args]
+        binding = {}
+        if pick["cls"] is not None and not pick["static"]:
+            if not params or recv is None:
+                return None
+            binding[params[0]] = recv if not pick["classmethod"] or recv.id != "self" else ast.Attribute(value=recv, attr="__class__", ctx=ast.Load())
+            params = params[1:]
+        if len(call.args) > len(params):
+            return None
+        for pn, av in zip(params, call.args):
+            binding[pn] = av
+        kwonly = [x.arg for x in a.kwonlyargs]
+        for k in call.keywords:
+            if (k.arg not in params and k.arg not in kwonly) or k.arg in binding:
+                return None
+            binding[k.arg] = k.value
+        defaults = dict(zip(params[len(params) - len(a.defaults):], a.defaults)) if a.defaults else {}
+        for kn, kd in zip(kwonly, a.kw_defaults):
+            if kd is not None:
+                defaults[kn] = kd
+        for pn in params + kwonly:
+            if pn not in binding:
+                if pn not in defaults:
+                    return None
+                binding[pn] = defaults[pn]
+        return d, binding
+
+    def _splice(self, s: ast.stmt, sp, live: List[_State]) -> List[_State]:
+        d, raw_binding = sp
+        key = (id(d), "splice")
+        if key not in _CACHE:
+            pe = PathEnumerator(d, None, self.max_paths)
+            pe.depth = self.depth + 1
+            _CACHE[key] = pe.run()
+        callee = _CACHE[key]
+        nxt: List[_State] = []
+        for st in live:
+            st.stmts.append(s)
+            # arguments are evaluated in the caller, before the body runs
+            for a in list(s.value.args) + [k.value for k in s.value.keywords]:
+                st.events.extend(_events_of(a, st.env, s))
+            B = {k: subst(v, st.env) for k, v in raw_binding.items()}
+            for q in callee:
+                st2 = st.fork()
+                for c in q.conds:
+                    st2.conds.append(Cond(c.raw, subst(c.test, B) if c.test is not None else None, c.pol))
+                for e in q.events:
+                    st2.events.append(Event(e.raw, subst(e.call, B), s, e.deferred, e.name))
+                for w in q.stores:
+                    st2.stores.append(Store(w.raw, subst(w.target, B), subst(w.value, B) if w.value is not None else None, s))
+                if len(st2.conds) > 400:
+                    raise AnalysisError("path condition explosion while splicing a helper")
+                if q.kind == "raise":
+                    self._emit("raise", s, subst(q.value, B) if q.value is not None else None, st2)
+                    continue
+                val = subst(q.value, B) if q.value is not None else ast.copy_location(ast.Constant(value=None), s)
+                if isinstance(s, ast.Return):
+                    self._emit("return", s, val, st2)
+                    continue
+                if isinstance(s, ast.Assign):
+                    for t in s.targets:
+                        self._bind(st2, t, val, s)
+                elif isinstance(s, ast.AnnAssign):
+                    self._bind(st2, s.target, val, s)
+                nxt.append(st2)
+            if len(nxt) > self.max_paths:
+                raise AnalysisError(f"path explosion in function at line {getattr(self.fn, 'lineno', '?')}")
+        return nxt
+
     # -- statements
     def _block(self, stmts: Sequence[ast.stmt], live: List[_State]) -> List[_State]:
         """States whose `brk` is set left a loop iteration early (break/continue): they skip the
@@ -683,11 +846,31 @@ class PathEnumerator:
                 self._emit("raise", s, subst(s.exc, st.env) if s.exc is not None else None, st)
             return []
         if isinstance(s, ast.If):
+            # `if H(..):` / `if not H(..):` with H a new function: the helper's paths are spliced in and its result is what is tested
+            t = s.test
+            neg = 0
+            while isinstance(t, ast.UnaryOp) and isinstance(t.op, ast.Not):
+                t = t.operand
+                neg += 1
+            if isinstance(t, ast.Call) and not getattr(s, "_spliced", False):
+                tmp = f"$test@{s.lineno}"
+                syn_assign = ast.copy_location(ast.Assign(targets=[ast.Name(id=tmp, ctx=ast.Store())], value=t), s)
+                sp = self._splice_target(syn_assign)
+                if sp is not None:
+                    after = self._splice(syn_assign, sp, live)
+                    test2: ast.AST = ast.copy_location(ast.Name(id=tmp, ctx=ast.Load()), s)
+                    for _ in range(neg):
+                        test2 = ast.copy_location(ast.UnaryOp(op=ast.Not(), operand=test2), s)
+                    if2 = ast.copy_location(ast.If(test=test2, body=s.body, orelse=s.orelse), s)
+                    if2._spliced = True
+                    return self._stmt(if2, after)
             for st in live:
                 st.stmts.append(s)
                 st.events.extend(_events_of(s.test, st.env, s))
                 test = subst(s.test, st.env)
                 known = _const_truth(test)
+                if known is None:
+                    known = _decided(st.conds, test)
                 if known is not True:
                     b = st.fork()
                     b.conds.append(Cond(s.test, test, False))
@@ -776,6 +959,11 @@ class PathEnumerator:
             return live
         if s.__class__.__name__ == "Match":
             raise AnalysisError(f"unsupported statement kind `match` at line {s.lineno}")
+        # a call of a NEW function (one the pinned tree does not have) as the whole value of a statement: its paths are spliced in,
+        # so that "these lines were moved into a helper / the function was split in two" reaches the rules as the same paths
+        sp = self._splice_target(s)
+        if sp is not None:
+            return self._splice(s, sp, live)
         # simple statements
         for st in live:
             st.stmts.append(s)
@@ -814,6 +1002,7 @@ class PathEnumerator:
 
 
 _CACHE: Dict[Tuple[int, str], List[Path]] = {}
+SPLICE = True
 
 
 def _alias_closure_env(fn_node) -> Dict[str, ast.AST]:
